@@ -30,7 +30,8 @@ type Exec struct {
 	W      *World
 	kvKind string
 	withC  bool
-	kv     sorted.KeyValue
+	kv     sorted.KeyValue // the faultKV around the real store
+	fkv    *faultKV
 	dir    string
 	src    *test.Fetcher
 	Ix     *index.Index
@@ -92,6 +93,15 @@ func (e *Exec) Close() {
 }
 
 func (e *Exec) openKV(kind string) error {
+	err := e.openRawKV(kind)
+	if err == nil {
+		e.fkv = &faultKV{KeyValue: e.kv}
+		e.kv = e.fkv
+	}
+	return err
+}
+
+func (e *Exec) openRawKV(kind string) error {
 	if kind == "mem" {
 		e.kv = sorted.NewMemoryKeyValue()
 		return nil
@@ -214,6 +224,28 @@ func (e *Exec) do(ws []string) string {
 		}
 		err := e.receive(id)
 		e.Ix.VerifAwaitReindex()
+		if err != nil {
+			return "err"
+		}
+		return "ok"
+	case "frecv":
+		// ReceiveBlob with a transient failure of the index's sorted.KeyValue (see faultKV)
+		if len(ws) != 3 {
+			return "bad-op"
+		}
+		id, ok := atoiStrict(ws[1])
+		if !ok || e.W.Specs[id] == nil {
+			return "bad-op"
+		}
+		switch ws[2] {
+		case "commit", "set", "delete":
+		default:
+			return "bad-op"
+		}
+		e.fkv.arm(ws[2], e.W.Blob[id].BlobRef().String())
+		err := e.receive(id)
+		e.Ix.VerifAwaitReindex()
+		e.fkv.disarm()
 		if err != nil {
 			return "err"
 		}
@@ -448,10 +480,7 @@ func dateTok(s string) string {
 	if err != nil {
 		return "?" + s
 	}
-	if t.Nanosecond() != 0 {
-		return "?" + s
-	}
-	return strconv.FormatInt(t.Unix(), 10)
+	return strconv.FormatInt(t.UnixNano(), 10)
 }
 
 func urld(s string) string {
@@ -707,10 +736,7 @@ func timeTok(t time.Time, ok bool) string {
 	if !ok {
 		return "-"
 	}
-	if t.Nanosecond() != 0 {
-		return "?" + t.Format(time.RFC3339Nano)
-	}
-	return strconv.FormatInt(t.Unix(), 10)
+	return strconv.FormatInt(t.UnixNano(), 10)
 }
 
 // Observe renders the answers of the exported query methods of (ix, c) about every blob of the world.
